@@ -527,6 +527,14 @@ void ezc3d::c3d::updateParameters(const std::vector<std::string> &newPoints, con
 
     // If analogous data has been added
     ezc3d::ParametersNS::GroupNS::Group& grpAnalog(_parameters->group_nonConst(parameters().groupIdx("ANALOG")));
+    // A file may come with an ANALOG group that holds no parameter at all (Optotrak): as long as no channel is
+    // declared and the data hold no analog sample there is nothing to follow in that group
+    if (grpAnalog.nbParameters() == 0 && newAnalogs.size() == 0
+            && (data().nbFrames() == 0 || data().frame(0).analogs().nbSubframes() == 0
+                || data().frame(0).analogs().subframe(0).nbChannels() == 0)){
+        updateHeader();
+        return;
+    }
     size_t nAnalogs;
     if (data().nbFrames() > 0){
         if (data().frame(0).analogs().nbSubframes() > 0)
